@@ -81,3 +81,18 @@ CASES += [
         (R, "            with energy_units(\"int\"):\n                self._set_rates()", "            with energy_units(\"int\"):\n                self._boot()", 1),
         (R, "    def _set_rates(self):", "    def _boot(self):\n        self._set_rates()\n\n    def _set_rates(self):", 1)]},
 ]
+
+TDR = "quantarhei/qm/liouvillespace/rates/tdredfieldrates.py"
+_SPL = ("                            sr = scipy.interpolate.UnivariateSpline(tm,\n                                    rr, s=0).antiderivative()(tm)\n"
+        "                            si = scipy.interpolate.UnivariateSpline(tm,\n                                    ri, s=0).antiderivative()(tm)\n"
+        "                            cc[:,k,i,j] =  sr + 1.0j*si\n")
+CASES += [
+    m("running integral by a quadrature routine that is not told the step (seeded change of round 6)", "C06-R9", TDR, _SPL,
+      "                            cc[:,k,i,j] = scipy.integrate.cumulative_trapezoid(ff, initial=0.0)\n"),
+    m("tensor integral loses its step", "C06-R9", "quantarhei/qm/liouvillespace/redfieldtensor.py",
+      "                cc_mnab = scipy.integrate.trapz(rc, dx=dt)", "                cc_mnab = scipy.integrate.trapz(rc)"),
+    t("running integral by a quadrature routine given the axis", TDR, _SPL,
+      "                            cc[:,k,i,j] = scipy.integrate.cumulative_trapezoid(ff, tm, initial=0.0)\n"),
+    t("running integral by a unit-spacing quadrature times the step", TDR, _SPL,
+      "                            cc[:,k,i,j] = scipy.integrate.cumulative_trapezoid(ff, initial=0.0)*(tm[1]-tm[0])\n"),
+]
